@@ -58,6 +58,6 @@ with ThreadPoolExecutor(3) as ex:
     for sid, r in ex.map(run, ids):
         out[sid] = r
         c = r.get("checks", {}).get(r["property"])
-        status = "n/a" if c == "not-claimed" else ("DETECTED" if isinstance(c, dict) and c["exit"] == 1 else f"missed({c})" if c else r.get("result"))
+        status = "n/a" if c == "not-claimed" else ("DETECTED" if isinstance(c, dict) and c["exit"] == 1 and any(l.startswith("VIOLATION") for l in c["lines"]) else f"missed({c})" if c else r.get("result"))
         print(sid, status, (c or {}).get("lines", [""])[:1] if isinstance(c, dict) else "", flush=True)
 json.dump(out, open(os.path.join(ROOT, "seeded", "MATRIX.json"), "w"), indent=1)
